@@ -316,6 +316,31 @@ theorem C05_chain_preserves_modulo (chain : List PassId)
     | true => exact proven_keeps p hpp
     | false => exact h p hp hpp) S S' ⟨hc, hup⟩ hr).1
 
+/-- Go: full statement (all eleven passes, the four object-creating ones included: created ⊆ registered) -/
+theorem C05_chain_preserves_go : C05_chain_full Cog.Gen.Chains.goChain :=
+  C05_chain_preserves_of_proven _ (by decide)
+
+theorem mem_takeWhile_true {α : Type} (q : α → Bool) : ∀ (l : List α), ∀ a ∈ l.takeWhile q, q a = true
+  | [], a, h => by simp at h
+  | x :: xs, a, h => by
+    simp only [List.takeWhile_cons] at h
+    split at h
+    · rename_i hx
+      rcases List.mem_cons.mp h with rfl | h
+      · exact hx
+      · exact mem_takeWhile_true q xs a h
+    · simp at h
+
+/-- the longest prefix of any chain whose passes have a proved lemma -/
+theorem C05_chain_preserves_prefix (chain : List Cog.Passes.PassId) :
+    C05_chain_full (chain.takeWhile provenPass) :=
+  C05_chain_preserves_of_proven _ (mem_takeWhile_true provenPass chain)
+
+/-- for Java and PHP that prefix is everything but the last pass (RemoveIntersections,
+    InlineObjectsWithTypes), for which the statement is false (counterexamples below) -/
+example : Cog.Gen.Chains.javaChain.takeWhile provenPass = Cog.Gen.Chains.javaChain.dropLast ∧
+    Cog.Gen.Chains.phpChain.takeWhile provenPass = Cog.Gen.Chains.phpChain.dropLast := by decide
+
 /-- TypeScript: full statement -/
 theorem C05_chain_preserves_typescript : C05_chain_full Cog.Gen.Chains.typescriptChain :=
   C05_chain_preserves_of_proven _ (by decide)
